@@ -84,6 +84,16 @@ def hostile_time_stream(rng):
               rng.choice([b'', b'UTC', b'%Y', rnd_bytes(rng, 5)]))
     return [cs, e_source(1, 128, b'c', b'f', b'x', 1, b'm', b''), e_event(1, rng.choice([0, 1, (1 << 64) - 1, 1 << 63, rng.randrange(1 << 64)]))]
 
+# zero-size element shapes the visitor collapses (or refuses) on the current tree, whatever count the input claims; a change that stops
+# collapsing one of them amplifies a 100-byte log into gigabytes. (Shapes of the recorded finding D6 - a back-reference to a struct whose
+# definition has a non-empty zero-size field tag - are NOT in this list; they are replayed separately.)
+COLLAPSED = ["[()", "[(())", "[(()())", "[{A`a'()}", "[{A`a'(){B`b'()}}", "({A`x'}[{A})", "({A`x'}[[{A})", "[{E}", "({E}[{E})", "[({E}())", "[[()", "([()[{E})", "{S`q'[()`r'[{E}}", "[<0()>", "[0"]
+def collapsed_stream(rng):
+    tag = rng.choice(COLLAPSED)
+    n = rng.choice([33, 1000, 100000, 0x7fffffff, 0xffffffff])
+    args = u(4, n) * tag.count('[') + b'\0' * rng.choice([0, 4, 64])
+    return [e_source(1, 128, b'c', b'f', b'x', 1, b'{} {}', tag.encode('latin1')), e_event(1, 1, args)]
+
 def bound(n): return 8 * (n + 64) ** 2
 
 # the recorded finding D6 (known_findings.json): zero-byte struct back-references are not recognised as singular
@@ -122,6 +132,8 @@ def run(ctx):
             ents = typed_stream(rng); add(mode, fmt, tfmt, b''.join(ents), ['valid_typed'], chunkings(rng, ents))
         elif k < 0.50:
             ents = typed_stream(rng); data = mutate_bytes(rng, b''.join(ents)); add(mode, fmt, tfmt, data, ['mutated_typed'], [data[:len(data) // 2], data[len(data) // 2:]])
+        elif k < 0.56:
+            ents = collapsed_stream(rng); add(mode, b'%m\n', tfmt, b''.join(ents), ['collapsed_zero_size'], ents)
         elif k < 0.65:
             ents, tg = hostile_tag_stream(rng)
             if tg == 'zero_size_count': continue            # this shape is the recorded finding D6a; replayed separately below
